@@ -65,7 +65,12 @@ def drive_shard(prop, tier, seed, shard, nshards, work, genfiles):
 def validate_shard(path, n, module):
     if n == 0:
         return [], {'states': 0, 'distinct': 0, 'wall': 0.0, 'cmd': ''}
-    rej, res = tlc.validate_trace(path, n, module=module)
+    try:
+        rej, res = tlc.validate_trace(path, n, module=module)
+    except tlc.MachineryError:
+        # (a JVM that died under memory pressure from its fifteen siblings: once more, on its own terms)
+        time.sleep(10)
+        rej, res = tlc.validate_trace(path, n, module=module, xmx='8g')
     return rej, res
 
 
